@@ -1,4 +1,5 @@
 import numpy as np
+import pandas as pd
 
 from PEPit.function import Function
 from PEPit.block_partition import BlockPartition
@@ -87,9 +88,9 @@ class BlockSmoothConvexFunction(Function):
         if function_id is None:
             function_id = "Function_{}".format(self.counter)
 
-        # Set tables_of_constraints attributes
-        for k in range(self.partition.get_nb_blocks()):
-            self.tables_of_constraints["smoothness_convexity_block_{}".format(k)] = [[]]*len(self.list_of_points)
+        # Initialize one table of constraints per block (one row per point, filled in the loops below)
+        nb_blocks = self.partition.get_nb_blocks()
+        tables_of_constraints = [[list() for _ in self.list_of_points] for _ in range(nb_blocks)]
 
         # Browse list of points and create interpolation constraints
         for i, point_i in enumerate(self.list_of_points):
@@ -107,8 +108,8 @@ class BlockSmoothConvexFunction(Function):
                     xj_id = "Point_{}".format(j)
 
                 if point_i == point_j:
-                    for k in range(self.partition.get_nb_blocks()):
-                        self.tables_of_constraints["smoothness_convexity_block_{}".format(k)][i].append(0)
+                    for k in range(nb_blocks):
+                        tables_of_constraints[k][i].append(0)
 
                 else:
 
@@ -122,5 +123,15 @@ class BlockSmoothConvexFunction(Function):
                         constraint = (fi - fj >= gj * (xi - xj) + 1 / (2 * self.L[k]) * (gik - gjk) ** 2)
                         constraint.set_name("IC_{}_smoothness_convexity_block_{}({}, {})".format(function_id, k,
                                                                                                  xi_id, xj_id))
-                        self.tables_of_constraints["smoothness_convexity_block_{}".format(k)][i].append(constraint)
+                        tables_of_constraints[k][i].append(constraint)
                         self.list_of_class_constraints.append(constraint)
+
+        # Complete the tables of constraints (same format as the ones of the other classes)
+        point_names = [point[0].name or "Point_{}".format(point_index) for point_index, point in
+                       enumerate(self.list_of_points)]
+        for k in range(nb_blocks):
+            table_of_constraints = np.array(tables_of_constraints[k])
+            if table_of_constraints.shape != (0,):
+                df = pd.DataFrame(table_of_constraints, columns=point_names, index=point_names)
+                df.columns.name = "IC_{}".format(function_id)
+                self.tables_of_constraints["smoothness_convexity_block_{}".format(k)] = df
